@@ -513,6 +513,10 @@ func (u *Upstream) withAckTimeoutCh(ctx context.Context, inCh <-chan *message.Up
 		defer cancel()
 		select {
 		case <-timeoutCtx.Done():
+			if ctx.Err() != nil {
+				// cancelled (disconnect or close), not an ack timeout: the chunk stays unacknowledged.
+				return
+			}
 			select {
 			case <-ctx.Done():
 			case <-u.ctx.Done():
